@@ -445,6 +445,8 @@ def _g_unary(g, ins):
         need(a.inx == 0)
     if fn in ("floor", "ceil", "trunc", "rint", "sign", "signbit"):
         need(a.inx == 0)
+    if fn in ("sqrt", "cbrt", "log1p"):
+        need(a.inx == 0)  # unbounded derivative (at 0 / -1) amplifies an inexact input without bound
     return {"fn": fn}
 
 
@@ -485,6 +487,13 @@ BINARY = {
     "fmin": ("f", 0),
 }
 PYOPS = {"add": operator.add, "subtract": operator.sub, "multiply": operator.mul, "true_divide": operator.truediv, "less": operator.lt, "greater_equal": operator.ge, "equal": operator.eq, "not_equal": operator.ne}
+
+
+def all_finite(v):
+    """BLAS-backed contractions treat NaN*0 / inf*0 differently depending on the kernel chosen for
+    a shape (the reference itself is not reproducible across blockings): keep non-finite values out."""
+    a = v.np
+    return a.dtype.kind not in "fc" or bool(np.isfinite(a).all())
 
 
 def broadcastable(s1, s2):
@@ -551,6 +560,8 @@ def _g_scalar(g, ins):
             s = 2
     if fn in ("floor_divide", "mod") and a.kind == "f":
         need(a.inx == 0)
+    if fn == "true_divide" and rev:
+        need(a.inx == 0)  # s / x amplifies without bound near x == 0
     return {"fn": fn, "s": s, "rev": rev}
 
 
@@ -1412,6 +1423,7 @@ def _lin_inexact(p, ins, out):
 def _g_tensordot(g, ins):
     a, b = ins
     need(a.ndim >= 1 and b.ndim >= 1 and a.kind in "fiu" and b.kind in "fiu")
+    need(all_finite(a) and all_finite(b))
     pairs = [(i, j) for i in range(a.ndim) for j in range(b.ndim) if a.shape[i] == b.shape[j]]
     need(pairs)
     i, j = g.rng.choice(pairs)
@@ -1436,6 +1448,7 @@ defop(
 def _g_matmul(g, ins):
     a, b = ins
     need(a.kind in "fiu" and b.kind in "fiu")
+    need(all_finite(a) and all_finite(b))
     need(1 <= a.ndim <= 3 and 1 <= b.ndim <= 3)
     try:
         out = np.matmul(a.np, b.np)
@@ -1470,6 +1483,7 @@ defop("outer", 2, _g_outer, lambda p, a, b: np.outer(a, b), lambda p, a, b: da()
 def _g_einsum(g, ins):
     a, b = ins
     need(a.kind in "fi" and b.kind in "fi" and a.mag * b.mag < 1e12)
+    need(all_finite(a) and all_finite(b))
     if a.ndim == 2 and b.ndim == 2 and a.shape[1] == b.shape[0]:
         sub = g.rng.choice(["ij,jk->ik", "ij,jk->ki", "ij,jk->i"])
     elif a.ndim == 2 and b.ndim == 1 and a.shape[1] == b.shape[0]:
